@@ -56,9 +56,14 @@ class NodeParser(PushParser):
         try:
             ns_map = self.ns_map if ns_map is None else ns_map
             result = handler.parse(source, ns_map)
-        except (SyntaxError, LookupError) as e:
-            # LookupError: The declared document encoding is unknown
+        except SyntaxError as e:
             raise ParserError(e)
+        except LookupError as e:
+            # The codecs registry raises a bare LookupError when the declared
+            # document encoding is unknown, leave KeyError/IndexError alone
+            if type(e) is LookupError:
+                raise ParserError(e)
+            raise
 
         if result is not None:
             return result
